@@ -174,6 +174,10 @@ fn budget(prop: &str, tier: &str, seed: u64, scale: f64) -> Budget {
             sweeps.push(sweeps::c05_base256_lengths(seed, if quick { 600 } else { 1600 }));
             sweeps.push(sweeps::c05_eci_charset_bytes());
             sweeps.push(sweeps::c05_long_streams());
+            sweeps.push(sweeps::c05_c40_value_sequences());
+            if checked || !quick {
+                sweeps.push(sweeps::c05_huge_positions());
+            }
             // all enumerations on both build profiles (C05 is stated for both)
             sweeps.push(sweeps::c05_string_path_streams());
             sweeps.push(sweeps::small_geometry("C05", if quick { 200 } else if checked { 1300 } else { 600 }, if quick { 40 } else { 150 }));
@@ -186,6 +190,7 @@ fn budget(prop: &str, tier: &str, seed: u64, scale: f64) -> Budget {
             sweeps.push(sweeps::small_geometry("C08", if quick { 330 } else if checked { 1300 } else { 600 }, if quick { 40 } else { 150 }));
             sweeps.push(sweeps::c08_track_faults(seed));
             sweeps.push(sweeps::c08_periodic_fixed_faults(seed));
+            sweeps.push(sweeps::c08_track_combinations(seed));
             sweeps.push(sweeps::dimension_aliases("C08", seed));
         }
         _ => {
